@@ -50,7 +50,7 @@ def run(names, tier):
         if not entry["caught_by"]:
             rc_all = 1
         results[name] = entry
-    with open(resp, "w") as f:
-        json.dump(results, f, indent=1, sort_keys=True)
-        f.write("\n")
+        with open(resp, "w") as f:
+            json.dump(results, f, indent=1, sort_keys=True)
+            f.write("\n")
     return rc_all
